@@ -8,9 +8,9 @@ CONSTANTS
   EcLens = {}
   Families = {}
   N = 3
-  Reps = {1, 2, 3}
-  RuleCounts = {1}
-  ListLens = {1, 2, 3}
+  Reps = {1, 2}
+  RuleCounts = {2}
+  ListLens = {1, 2}
   MaxRounds = 3
 INVARIANTS NeverEmpty TaskOK ConvergedInTime
 CHECK_DEADLOCK FALSE
